@@ -2,7 +2,7 @@
 Never counted as proved; every obligation carries its bound."""
 import os, re, json, shutil
 import common
-from common import log, Undecided, VERIF, CACHE, NCPU
+from common import log, Undecided, BuildFailed, overlay_files_in_errors, VERIF, CACHE, NCPU
 
 
 def _env(scratch, ctx):
@@ -34,7 +34,7 @@ def run(ctx, obls):
     if re.search(r"^error(\[E\d+\])?:", out, re.M) and "test result:" not in out:
         lines = out.splitlines()
         blocks = ["\n".join(lines[i:i + 12]) for i, l in enumerate(lines) if re.match(r"^error(\[E\d+\])?:", l)]
-        raise Undecided("engine X build failed:\n%s" % "\n---\n".join(blocks[:4]))
+        raise BuildFailed("engine X build failed:\n%s" % "\n---\n".join(blocks[:4]), overlay_files_in_errors(out))
     stats, fails = {}, {}
     for m in re.finditer(r"^XSTAT (\{.*\})\s*$", out, re.M):
         try:
